@@ -90,9 +90,12 @@ type Event struct {
 
 // Outcome of a scheduled execution.
 type Outcome struct {
-	Steps      int64
-	Events     []Event
-	Deadlock   bool
+	Steps    int64
+	Events   []Event
+	Deadlock bool
+	// Leaked: goroutines left behind blocked forever after every root task
+	// had finished.
+	Leaked     int
 	NoProgress bool
 	Blocked    []string // tasks blocked at the end (deadlock description)
 	Panics     map[string]string
@@ -123,6 +126,12 @@ type Sched struct {
 	cmdW   int
 	tasks  []*task
 	byGoid map[uint64]*task
+	// anon: goroutines spawned by tasks that were seen in a goroutine dump
+	// but have not reached a yield point yet. They are waited for, but get
+	// a logical id only when they first yield: whether a short-lived child
+	// is ever caught by a dump is a matter of timing and must not influence
+	// ids, policies or the event log.
+	anon   map[uint64]*task
 	table  [tableSize]slot
 	step   int64
 	events []Event
@@ -161,7 +170,7 @@ var active *Sched
 
 // New creates a scheduler drawing its decisions from ch.
 func New(ch choice.Chooser) *Sched {
-	return &Sched{ch: ch, byGoid: map[uint64]*task{}, panics: map[string]string{}, Budget: 400, FairBound: 4000, lastEvOf: map[int]int{}, lastPicked: -1}
+	return &Sched{ch: ch, byGoid: map[uint64]*task{}, anon: map[uint64]*task{}, panics: map[string]string{}, Budget: 400, FairBound: 4000, lastEvOf: map[int]int{}, lastPicked: -1}
 }
 
 // Go registers a root task. Logical ids follow the order of Go calls.
@@ -391,6 +400,7 @@ func (s *Sched) handle(m []byte, rootHello map[int64]*task) {
 				t.goid = g
 				s.byGoid[g] = t
 			} else {
+				delete(s.anon, g)
 				t = s.newTask(g, fmt.Sprintf("child%d", len(s.tasks)), false, s.lastPicked)
 				s.out.Adopted++
 			}
@@ -428,7 +438,7 @@ var blockedReasons = map[string]bool{
 	"chan receive": true, "chan send": true, "select": true, "select (no cases)": true,
 	"chan receive (nil chan)": true, "chan send (nil chan)": true,
 	"sync.Mutex.Lock": true, "sync.RWMutex.RLock": true, "sync.RWMutex.Lock": true,
-	"semacquire": true, "sync.WaitGroup.Wait": true, "sync.Cond.Wait": true, "IO wait": true,
+	"sync.WaitGroup.Wait": true, "sync.Cond.Wait": true, "IO wait": true,
 }
 
 type ginfo struct {
@@ -457,6 +467,17 @@ func parseDump(b []byte) map[uint64]ginfo {
 		reason := block[lb+1 : rb]
 		if c := strings.IndexByte(reason, ','); c >= 0 {
 			reason = reason[:c]
+		}
+		if reason == "semacquire" {
+			// runtime-internal semaphores (worldsema while this very dump
+			// stops the world, GC start, ...) share the wait reason with
+			// sync.WaitGroup.Wait on this toolchain; only the latter is a
+			// task blocked in a primitive of the program
+			if strings.Contains(block, "sync.(*WaitGroup).Wait(") {
+				reason = "sync.WaitGroup.Wait"
+			} else {
+				reason = "semacquire (runtime)"
+			}
 		}
 		gi := ginfo{reason: reason}
 		if k := strings.LastIndex(block, " in goroutine "); k >= 0 {
@@ -505,7 +526,7 @@ func (s *Sched) settle(rootHello map[int64]*task, needRoots int) bool {
 				rootsMissing++
 			}
 		}
-		needDump := s.expectChild
+		needDump := s.expectChild || len(s.anon) > 0
 		for _, t := range s.tasks {
 			if t.state == stRunning || t.state == stBlocked {
 				needDump = true
@@ -537,14 +558,32 @@ func (s *Sched) settle(rootHello map[int64]*task, needRoots int) bool {
 					settled = false
 				}
 			}
+			for g, t := range s.anon {
+				gi, ok := gs[g]
+				switch {
+				case !ok:
+					delete(s.anon, g)
+				case blockedReasons[gi.reason]:
+					t.state = stBlocked
+					t.reason = gi.reason
+				default:
+					t.state = stRunning
+					settled = false
+				}
+			}
 			// descendants of tasks that have not announced themselves
 			for g, gi := range gs {
 				if _, known := s.byGoid[g]; known || gi.createdBy == 0 {
 					continue
 				}
-				if pt, ok := s.byGoid[gi.createdBy]; ok {
-					t := s.newTask(g, fmt.Sprintf("child%d", len(s.tasks)), false, pt.id)
-					s.out.Adopted++
+				if _, known := s.anon[g]; known {
+					continue
+				}
+				_, p1 := s.byGoid[gi.createdBy]
+				_, p2 := s.anon[gi.createdBy]
+				if p1 || p2 {
+					t := &task{id: -1, goid: g, name: "anon", rfd: -1, wfd: -1}
+					s.anon[g] = t
 					if blockedReasons[gi.reason] {
 						t.state = stBlocked
 						t.reason = gi.reason
@@ -726,16 +765,31 @@ func (s *Sched) Run() Outcome {
 				live++
 			}
 		}
-		if live == 0 {
+		if live == 0 && len(s.anon) == 0 {
 			break
 		}
+		rootsAlive := false
+		for _, t := range s.tasks {
+			if t.root && t.state != stExited {
+				rootsAlive = true
+			}
+		}
 		if len(cands) == 0 {
-			// nobody can be released and somebody waits forever
+			if !rootsAlive {
+				// every call returned; goroutines the calls left behind and
+				// that wait forever are a leak, not a deadlock of the call
+				s.out.Leaked = live + len(s.anon)
+				break
+			}
+			// nobody can be released and a caller waits forever
 			s.out.Deadlock = true
 			for _, t := range s.tasks {
 				if t.state == stBlocked {
 					s.out.Blocked = append(s.out.Blocked, fmt.Sprintf("%s blocked in %s after %s", t.name, t.reason, t.site))
 				}
+			}
+			for _, t := range s.anon {
+				s.out.Blocked = append(s.out.Blocked, fmt.Sprintf("unannounced goroutine blocked in %s", t.reason))
 			}
 			break
 		}
@@ -764,7 +818,7 @@ func (s *Sched) Run() Outcome {
 		rawWrite(t.wfd, rel[:])
 	}
 
-	stuck := s.out.Deadlock || s.out.NoProgress || s.out.Trouble != ""
+	stuck := s.out.Deadlock || s.out.NoProgress || s.out.Trouble != "" || s.out.Leaked > 0
 	if !stuck {
 		s.wg.Wait() // the real join: only now may the harness read what tasks wrote
 		active = nil
